@@ -26,8 +26,22 @@ sha_ghost_run(const uint32_t H[8], const uint8_t M[64])
 	for (int t = 0; t < 16; t++)
 		g_sha_W[t] = ((uint32_t)M[4 * t] << 24) | ((uint32_t)M[4 * t + 1] << 16) |
 		    ((uint32_t)M[4 * t + 2] << 8) | (uint32_t)M[4 * t + 3];
+#ifdef SHA_GHOST_DEFINITIONAL
+	/*
+	 * Same values, introduced as FRESH ghost variables that are then pinned by definitional assumptions (for every
+	 * input exactly one assignment satisfies them, so no input is excluded): keeps every cut-point lemma local for
+	 * the SAT solver (the specification side of step t mentions only the variables of steps t - 16 .. t).
+	 */
+	for (int t = 16; t < 64; t++) {
+		uint32_t fresh;
+
+		g_sha_W[t] = fresh;
+		__CPROVER_assume(g_sha_W[t] == spec_sha256_sched(g_sha_W[t - 2], g_sha_W[t - 7], g_sha_W[t - 15], g_sha_W[t - 16]));
+	}
+#else
 	for (int t = 16; t < 64; t++)
 		g_sha_W[t] = spec_sha256_sched(g_sha_W[t - 2], g_sha_W[t - 7], g_sha_W[t - 15], g_sha_W[t - 16]);
+#endif
 	/* step 2: working variables; step 3: 64 rounds */
 	for (int k = 0; k < 8; k++)
 		g_sha_S[0][k] = H[k];
@@ -35,6 +49,15 @@ sha_ghost_run(const uint32_t H[8], const uint8_t M[64])
 		const uint32_t * v = g_sha_S[t];
 
 		spec_sha256_round(v[0], v[1], v[2], v[3], v[4], v[5], v[6], v[7], spec_sha256_K[t] + g_sha_W[t], &ne, &na);
+#ifdef SHA_GHOST_DEFINITIONAL
+		{
+			uint32_t fe, fa;
+
+			__CPROVER_assume(fe == ne && fa == na);
+			ne = fe;
+			na = fa;
+		}
+#endif
 		g_sha_S[t + 1][0] = na;
 		g_sha_S[t + 1][1] = v[0];
 		g_sha_S[t + 1][2] = v[1];
